@@ -14,7 +14,9 @@ def cname(q): return re.sub(r'[^A-Za-z0-9_]', '_', q.replace('::', '_'))
 
 CT = {1: 'uint8_t', 2: 'uint16_t', 4: 'uint32_t', 8: 'uint64_t'}
 
+PLAINS = []
 def parse(path):
+    del PLAINS[:]
     classes = collections.OrderedDict(); payloads = []
     cur = None
     for ln, raw in enumerate(open(path), 1):
@@ -30,6 +32,14 @@ def parse(path):
         elif t[0] == 'payload':
             cur = {'kind': 'payload', 'name': t[1], 'header': kv['header'], 'vec': kv['vec'], 'fw': [], 'ctor': kv.get('ctor'), 'type': kv.get('type'), 'native': kv.get('native'), 'line': ln}
             payloads.append(cur)
+        elif t[0] == 'plain':
+            cur = {'kind': 'plain', 'name': t[1], 'members': [], 'acc': []}
+            PLAINS.append(cur)
+        elif t[0] in ('m', 'b', 'k', 'x') and cur and cur.get('kind') == 'plain':
+            if t[1] not in cur['members']: cur['members'].append(t[1])
+            if t[0] != 'x':
+                cur['acc'].append({'k': t[0], 'member': t[1], 'ctype': t[2], 'get': kv.get('get'), 'set': kv.get('set'),
+                                   'mask': int(kv['mask'], 0) if 'mask' in kv else None, 'shift': int(kv.get('shift', '0'))})
         elif t[0] == 'f':
             f = {'name': t[1], 'off': int(t[2]), 'width': int(t[3]), 'kind': t[4], 'get': kv.get('get'), 'set': kv.get('set'),
                  'mask': int(kv['mask'], 0) if 'mask' in kv else None, 'shift': int(kv.get('shift', '0')),
@@ -185,6 +195,34 @@ def main(tbl, outpath):
             out.append('@body')
             out.append(f"void HARNESS(void) {{ struct {cn} *o; {fn}(o); __CPROVER_assert(0, \"CANARY\"); }}")
             out.append('@end')
+    for pl in PLAINS:
+        cn = cname(pl['name']); tagp = cn.replace('ASAM_CMP_', '')
+        for a in pl['acc']:
+            mem = a['member']; ct = a['ctype']
+            others = [m for m in pl['members'] if m != mem]
+            if a['get']:
+                fn = cn + '_' + a['get']
+                out += [f"@fn {fn}", '@contract', '__CPROVER_requires(__CPROVER_is_fresh(this, sizeof(*this)))', '__CPROVER_assigns()']
+                if a['k'] == 'm': val = f"__CPROVER_return_value == this->{mem}"
+                elif a['k'] == 'b': val = f"__CPROVER_return_value == ((this->{mem} & {a['mask']:#x}u) >> {a['shift']})"
+                else: val = f"(__CPROVER_return_value != 0) == ((this->{mem} & ({ct})VERIF_ARG1) != 0)"
+                out += [f"__CPROVER_ensures({val})   //# C11:{tagp}.{a['get']}.readback", '@end', f"@harness h_{fn}", '@props C11', f"@enforce {fn}", '@body']
+                arg = ', m' if a['k'] == 'k' else ''; decl = f" {ct} m;" if a['k'] == 'k' else ''
+                out += [f"void HARNESS(void) {{ struct {cn} *o;{decl} {fn}(o{arg}); __CPROVER_assert(0, \"CANARY\"); }}", '@end']
+            if a['set']:
+                fn = cn + '_' + a['set']
+                out += [f"@fn {fn}", '@contract', '__CPROVER_requires(__CPROVER_is_fresh(this, sizeof(*this)))']
+                if a['k'] == 'b': out.append(f"__CPROVER_requires((uint64_t)VERIF_ARG1 <= {a['mask'] >> a['shift']:#x}ul)")
+                out.append('__CPROVER_assigns(*this)')
+                if a['k'] == 'm': val = f"this->{mem} == VERIF_ARG1"
+                elif a['k'] == 'b': val = f"this->{mem} == ((__CPROVER_old(this->{mem}) & ~({ct}){a['mask']:#x}u) | ((({ct})VERIF_ARG1) << {a['shift']}))"
+                else: val = f"this->{mem} == ({ct})(VERIF_ARG2 ? (__CPROVER_old(this->{mem}) | ({ct})VERIF_ARG1) : (__CPROVER_old(this->{mem}) & ~({ct})VERIF_ARG1))"
+                out.append(f"__CPROVER_ensures({val})   //# C11:{tagp}.{a['set']}.value")
+                for m in others: out.append(f"__CPROVER_ensures(this->{m} == __CPROVER_old(this->{m}))   //# C11:{tagp}.{a['set']}.other.{m}")
+                out += ['@end', f"@harness h_{fn}", '@props C11', f"@enforce {fn}", '@body']
+                if a['k'] == 'k': out.append(f"void HARNESS(void) {{ struct {cn} *o; {ct} m; _Bool v = nondet_bool(); {fn}(o, m, v); __CPROVER_assert(0, \"CANARY\"); }}")
+                else: out.append(f"void HARNESS(void) {{ struct {cn} *o; uint64_t v; {fn}(o, v); __CPROVER_assert(0, \"CANARY\"); }}")
+                out.append('@end')
     open(outpath, 'w').write('\n'.join(out) + '\n')
 
 if __name__ == '__main__':
